@@ -6,7 +6,7 @@ W=$(mktemp -d /tmp/verif_orig_XXXX)
 git -C /repo worktree add --detach -f "$W" f5ffd89 >/dev/null 2>&1
 cd /verif
 {
-for p in C01 C02 C03 C04 C05 C06 C07 C08 C10 C11 C12 C13 C15 C17 C18 C19 C20 C21 C22 C23 C24 C25 C26 C27; do
+for p in C01 C02 C03 C04 C05 C06 C07 C08 C09 C10 C11 C12 C13 C15 C16 C17 C18 C19 C20 C21 C22 C23 C24 C25 C26 C27; do
   /venv/bin/python check.py --property $p --tier quick --repo "$W" --no-evidence 2>&1 | grep -E "^(FAIL|ANALYSIS|KNOWN-FINDING)" | sed -E 's/^KNOWN-FINDING: property=[A-Z0-9]+ .*\[(R[0-9.]+) (.*) :: (.*)\]$/FAIL \1 [\2] \3 (known finding)/' | sed "s/^/$p /" | cut -c1-190
 done
 } | sort
